@@ -344,6 +344,9 @@ func ParseSliceHeader(nalu []byte, spsMap map[uint32]*SPS, ppsMap map[uint32]*PP
 		if pps.DeblockingFilterOverrideEnabledFlag {
 			sh.DeblockingFilterOverrideFlag = r.ReadFlag()
 		}
+		// when not coded, slice_deblocking_filter_disabled_flag is inferred to be equal to
+		// pps_deblocking_filter_disabled_flag (7.4.7.1)
+		sh.DeblockingFilterDisabledFlag = pps.DeblockingFilterDisabledFlag
 		if sh.DeblockingFilterOverrideFlag {
 			sh.DeblockingFilterDisabledFlag = r.ReadFlag()
 			if !sh.DeblockingFilterDisabledFlag {
